@@ -362,7 +362,6 @@ impl World {
 
 struct Ctx {
     rep: Report,
-    release: bool,
 }
 
 fn jlist(v: &[String]) -> Json {
@@ -537,16 +536,18 @@ fn order_sig(w: &World, fam: usize, better: &MPath, above: &MPath) -> String {
     let kb = ref_key(better);
     let ka = ref_key(above);
     let k = better_at(&kb, &ka).expect("order_sig called on a non-violation");
-    // a hop count above 255 whose value modulo 256 favours `above` although the true count does not
+    // Classification only (which known root cause explains the mis-ordering); the verdict
+    // itself never depends on anything below.
     let (hb, ha) = (ref_hops(better.spec.asp), ref_hops(above.spec.asp));
     let (wb, wa) = (hb % 256, ha % 256);
-    if (hb > 255 || ha > 255) && ((k == S_ASPATH && wa <= wb) || (k < S_ASPATH && ka[2] == kb[2] && wa < wb && ha >= hb)) {
-        return "C02/order/as-path-hop-count-over-255".into();
-    }
     if fam == EVPN && w.resorted[EVPN] && w.mm_broken {
         // restale/restale_llgr re-sorted the EVPN list and it has been seen out of MAC-mobility order since:
         // nothing about the order of this list can be trusted any more
         return "C02/order/evpn-mac-mobility-lost-after-restale".into();
+    }
+    // a hop count above 255 whose value modulo 256 favours `above` although the true count does not
+    if (hb > 255 || ha > 255) && ((k == S_ASPATH && wa <= wb) || (k < S_ASPATH && ka[2] == kb[2] && wa < wb && ha >= hb)) {
+        return "C02/order/as-path-hop-count-over-255".into();
     }
     // `better` wins at the LLGR step but `above` wins the first differing step among
     // LOCAL_PREF .. GR-stale: the LLGR step was evaluated after that step
@@ -1464,12 +1465,11 @@ fn main() {
     rep.max_samples = 3;
     let release = !cfg!(debug_assertions);
     rep.count(if release { "profile:release" } else { "profile:debug" });
-    let mut ctx = Ctx { rep, release };
-    let _ = ctx.release;
+    let mut ctx = Ctx { rep };
     let mut rng = Rng::new(params.seed ^ 0xC02_C02);
     let part = params.get("part").unwrap_or("all").to_string();
     if part == "all" || part == "matrix" {
-        run_matrix(&mut ctx, &mut rng.fork(), params.n(6, 60));
+        run_matrix(&mut ctx, &mut rng.fork(), params.n(6, 600));
         ctx.rep.exhaustive = Some(false);
     }
     if part == "all" || part == "perm" {
